@@ -127,13 +127,13 @@ impl Client {
     fn initialize(&mut self) -> bool {
         let id = self.request("initialize", json::object! { "processId": json::Null, "rootUri": json::Null,
             "capabilities": { "workspace": { "configuration": true } } });
-        if !self.has_response(id, 8000) { return false; }
+        if !self.has_response(id, T_INIT) { return false; }
         self.notify("initialized", json::object! {})
     }
     /// wait for the server's next `workspace/configuration` request after message index `from`
     /// and answer it from this thread (so that all client sends have one definite order)
     fn answer_config(&mut self, from: usize, settings: json::JsonValue) -> bool {
-        let ok = self.wait_for(|ms| ms.iter().skip(from).any(|(_, m)| m["method"] == "workspace/configuration"), 3000);
+        let ok = self.wait_for(|ms| ms.iter().skip(from).any(|(_, m)| m["method"] == "workspace/configuration"), T_CFG);
         if !ok { return false; }
         let id = {
             let g = self.msgs.lock().unwrap();
@@ -164,10 +164,25 @@ impl Client {
             if let Ok(Some(_)) = self.child.try_wait() { return; }
             std::thread::sleep(Duration::from_millis(10));
         }
+        // Drop kills and reaps
+    }
+}
+
+impl Drop for Client {
+    /// no server process may outlive its client, whatever path the harness takes
+    fn drop(&mut self) {
+        self.stdin = None;
         let _ = self.child.kill();
         let _ = self.child.wait();
     }
 }
+
+/// generous upper bounds (ms); every wait exits as soon as its condition holds, so these only cost
+/// time when something is really wrong — a loaded machine must not turn into a verdict
+const T_INIT: u64 = 40_000;
+const T_CFG: u64 = 20_000;
+const T_REQ: u64 = 20_000;
+const T_PUBLISH: u64 = 30_000;
 
 fn did_open(c: &mut Client, uri: &str, ver: i64, text: &str) -> bool {
     c.notify("textDocument/didOpen", json::object! { "textDocument": { "uri": uri, "languageId": "x", "version": ver, "text": text } })
@@ -212,10 +227,12 @@ fn build_servers() -> Result<String, String> {
     if !lock.exists() {
         let _ = std::fs::copy("/repo/Cargo.lock", &lock);
     }
-    let out = Command::new("cargo").args(["build", "--offline", "--bins"]).current_dir(&repo)
+    let mut cargo = Command::new("cargo");
+    cargo.args(["build", "--offline", "--bins"]).current_dir(&repo)
         .env("RUSTFLAGS", "--cfg a2kit_verif").env("CARGO_TARGET_DIR", &target).env("CARGO_NET_OFFLINE", "true")
-        .env_remove("LD_PRELOAD").env_remove("CARGO_ENCODED_RUSTFLAGS")
-        .output().map_err(|e| format!("cargo: {}", e))?;
+        .env_remove("LD_PRELOAD").env_remove("CARGO_ENCODED_RUSTFLAGS");
+    crate::util::die_with_parent(&mut cargo);
+    let out = cargo.output().map_err(|e| format!("cargo: {}", e))?;
     if !out.status.success() {
         let e = String::from_utf8_lossy(&out.stderr);
         let tail: Vec<&str> = e.lines().filter(|l| l.contains("error")).take(6).collect();
@@ -228,16 +245,23 @@ fn build_servers() -> Result<String, String> {
 // document texts
 // ------------------------------------------------------------------------------------------------
 
-const AS_STMTS: [&str; 24] = ["PRINT \"HELLO\"", "GOTO 100", "GOSUB 1000", "FOR I = 1 TO 10", "NEXT I", "A = A + 1", "IF A > 3 THEN 50",
+const AS_STMTS: [&str; 27] = ["LONGV = 1", "PRINT LONGV + 1", "Z = FN F(LONGV)", "PRINT \"HELLO\"", "GOTO 100", "GOSUB 1000", "FOR I = 1 TO 10", "NEXT I", "A = A + 1", "IF A > 3 THEN 50",
     "DIM A(10)", "INPUT \"NAME? \";N$", "HOME", "REM A COMMENT", "POKE 768,0", "CALL 768", "RETURN", "END", "X = PEEK(49152)",
     "DEF FN F(X) = X*2", "Y = FN F(3)", "ON A GOTO 10,20,30", "HTAB 5: VTAB 6", "PRINT CHR$(4);\"RUN X\"", "POKE 103,1: POKE 104,8",
     "A$ = \"AB\" + B$", "DATA 1,2,\"X\""];
-const IB_STMTS: [&str; 16] = ["PRINT \"HELLO\"", "GOTO 100", "GOSUB 1000", "FOR I = 1 TO 10", "NEXT I", "A = A + 1", "IF A > 3 THEN 50",
+const IB_STMTS: [&str; 18] = ["LONGV = 1", "PRINT LONGV + 1", "PRINT \"HELLO\"", "GOTO 100", "GOSUB 1000", "FOR I = 1 TO 10", "NEXT I", "A = A + 1", "IF A > 3 THEN 50",
     "DIM A(10)", "INPUT \"NAME\",N$", "REM A COMMENT", "POKE 768,0", "CALL 768", "RETURN", "END", "X = PEEK(2000)", "TAB 5: VTAB 6"];
 const ME_LINES: [&str; 26] = ["START    LDA   #$00", "         STA   $C000", "LOOP     INX", "         BNE   LOOP", "         JMP   NOWHERE", "* comment line",
     "VAL      EQU   $300", "         ORG   $8000", "         JSR   SUB", "SUB      RTS", "MAC1     MAC", "         LDA   ]1", "         <<<", "         MAC1  #$01",
     "         DO    0", "         FIN", "]VAR     =     5", "         LDA   #]VAR", ":LOCAL   DEX", "         BPL   :LOCAL", "MSG      ASC   \"HELLO\"", "         HEX   00A1FF",
     "         DS    16", "         LUP   3", "         --^", "         PUT   OTHER"];
+
+/// user-function and long variable names whose first two characters coincide: Applesoft keeps only
+/// two significant characters, and the analyzer warns about collisions *within one program*.  Every
+/// text uses ONE name of each family, so a fresh analysis never warns; a warning can only come
+/// from names that an earlier analysis (older version, other document) left in the shared analyzer.
+const FN_NAMES: [&str; 4] = ["CUBE", "CUTE", "CUP", "CUB2"];
+const VAR_NAMES: [&str; 4] = ["BLUE", "BLIP", "BLUB", "BL2"];
 
 fn valid_text(lang: Lang, rng: &mut Rng) -> String {
     let n = rng.range(1, 14);
@@ -245,8 +269,11 @@ fn valid_text(lang: Lang, rng: &mut Rng) -> String {
     match lang {
         Lang::Applesoft | Lang::Integer => {
             let mut ln = 10 * rng.range(1, 5);
+            let f = *rng.pick(&FN_NAMES);
+            let v = *rng.pick(&VAR_NAMES);
             for _ in 0..n {
                 let stmt = if lang == Lang::Applesoft { *rng.pick(&AS_STMTS) } else { *rng.pick(&IB_STMTS) };
+                let stmt = stmt.replace("FN F(", &format!("FN {}(", f)).replace("LONGV", v);
                 s.push_str(&format!("{} {}\n", ln, stmt));
                 ln += 10 * rng.range(1, 3);
             }
@@ -432,6 +459,22 @@ fn gen_case(lang: Lang, idx: usize, rng: &mut Rng) -> Case {
     Case { lang, idx, steps, texts, sched, answer_initial_cfg: rng.chance(50), poison, burst, max_latency: None }
 }
 
+/// how long the first analysis of fixed schedule (b) keeps the mutex
+const HOLD_MS: u64 = 4000;
+
+/// two texts per language such that analysing B after A with a leaking analyzer differs from
+/// analysing B alone (and vice versa)
+fn leak_texts(lang: Lang) -> (String, String) {
+    match lang {
+        Lang::Applesoft => ("10 DEF FN CUBE(X) = X*X*X\n20 BLUE = 2\n30 PRINT FN CUBE(BLUE)\n40 GOTO 100\n100 END\n".to_string(),
+                            "10 DEF FN CUTE(X) = X+1\n20 BLIP = 3\n30 PRINT FN CUTE(BLIP)\n40 GOTO 100\n".to_string()),
+        Lang::Integer => ("10 DIM NAME$(10),A(5)\n20 NAME$ = \"X\"\n30 A(1) = 1\n40 GOTO 100\n100 END\n".to_string(),
+                          "10 PRINT NAME$\n20 PRINT A(1)\n30 GOTO 100\n".to_string()),
+        Lang::Merlin => ("SUB      RTS\nVAL      EQU   $300\nM1       MAC\n         LDA   ]1\n         <<<\n]V       =     5\n".to_string(),
+                         "         JSR   SUB\n         LDA   VAL\n         M1    #1\n         LDA   #]V\n".to_string()),
+    }
+}
+
 /// hand-made schedules that every run must contain
 fn fixed_cases(lang: Lang, base: usize, rng: &mut Rng) -> Vec<Case> {
     let mk = |t: usize, rng: &mut Rng| format!("{}{}", valid_text(lang, rng), match lang { Lang::Merlin => format!("* t{}\n", t), _ => format!("{} REM T{}\n", 60000 + t, t) });
@@ -443,11 +486,11 @@ fn fixed_cases(lang: Lang, base: usize, rng: &mut Rng) -> Vec<Case> {
     steps.push((10, Act::Req { kind: 0, d: 0, line: 0, ch: 4 }));
     let sched = (0..6).map(|i| ("lock".to_string(), 1001 + i as i64, 60 * (5 - i as u64))).collect();
     out.push(Case { lang, idx: base, steps, texts, sched, answer_initial_cfg: false, poison: false, burst: true, max_latency: None });
-    // (b) first analysis holds the mutex for 400 ms while two documents are edited and requests arrive
+    // (b) first analysis holds the mutex for several seconds while two documents are edited and requests arrive
     let texts: Vec<String> = (0..4).map(|t| mk(t, rng)).collect();
     let steps = vec![(0, Act::Open { d: 0, ver: 1001, t: 0 }), (30, Act::Open { d: 1, ver: 2001, t: 1 }), (10, Act::Req { kind: 0, d: 0, line: 0, ch: 4 }),
         (0, Act::Change { d: 0, ver: 1002, t: 2 }), (20, Act::Req { kind: 1, d: 1, line: 0, ch: 2 }), (0, Act::Change { d: 1, ver: 2002, t: 3 }), (50, Act::Req { kind: 2, d: 0, line: 0, ch: 0 })];
-    out.push(Case { lang, idx: base + 1, steps, texts, sched: vec![("hold".to_string(), 1001, 900)], answer_initial_cfg: true, poison: false, burst: false, max_latency: Some(450) });
+    out.push(Case { lang, idx: base + 1, steps, texts, sched: vec![("hold".to_string(), 1001, HOLD_MS)], answer_initial_cfg: true, poison: false, burst: false, max_latency: Some(HOLD_MS) });
     // (c) configuration answered while an analysis holds the mutex; private-analyzer relaunch
     let texts: Vec<String> = (0..3).map(|t| mk(t, rng)).collect();
     let steps = vec![(0, Act::Open { d: 0, ver: 1001, t: 0 }), (0, Act::Open { d: 1, ver: 2001, t: 1 }), (20, Act::Config { live: true }), (0, Act::Change { d: 0, ver: 1002, t: 2 }),
@@ -458,6 +501,30 @@ fn fixed_cases(lang: Lang, base: usize, rng: &mut Rng) -> Vec<Case> {
     let steps = vec![(0, Act::Open { d: 0, ver: 1001, t: 0 }), (150, Act::Change { d: 0, ver: 1002, t: 1 }), (0, Act::Change { d: 0, ver: 1003, t: 2 }),
         (100, Act::Req { kind: 0, d: 0, line: 0, ch: 3 }), (50, Act::Change { d: 0, ver: 1004, t: 3 })];
     out.push(Case { lang, idx: base + 3, steps, texts, sched: vec![("panic".to_string(), 1002, 1)], answer_initial_cfg: false, poison: true, burst: false, max_latency: None });
+    // (e) burst of changes on a LARGE document, no delay table: the analysis takes longer than the gaps,
+    //     so jobs pile up behind the mutex by themselves (works without hooks too)
+    let big = |t: usize, rng: &mut Rng| {
+        let mut s = String::new();
+        for i in 0..700 { match lang {
+            Lang::Merlin => s.push_str(&format!("L{}T{}   LDA   #${:02X}\n         JSR   L{}T{}\n", i, t, i % 256, (i * 7) % 700, t)),
+            _ => s.push_str(&format!("{} A{} = A{} + {}: GOTO {}\n", 10 + i, i % 9, (i + t) % 9, i, 10 + (i * 7 + t) % 700)),
+        } }
+        let _ = rng;
+        s + &match lang { Lang::Merlin => format!("* t{}\n", t), _ => format!("{} REM T{}\n", 60000 + t, t) }
+    };
+    let texts: Vec<String> = (0..5).map(|t| big(t, rng)).collect();
+    let mut steps = vec![(0, Act::Open { d: 0, ver: 1001, t: 0 })];
+    for i in 1..5 { steps.push((0, Act::Change { d: 0, ver: 1001 + i as i64, t: i })); }
+    out.push(Case { lang, idx: base + 4, steps, texts, sched: vec![], answer_initial_cfg: false, poison: false, burst: true, max_latency: None });
+    // (f) what one analysis leaves in the shared analyzer must not reach the next: B after A on the same
+    //     document and on another one, in launch order ...
+    let (a, b) = leak_texts(lang);
+    let texts = vec![a.clone(), a.clone() + &match lang { Lang::Merlin => "* other\n".to_string(), _ => "60001 REM OTHER\n".to_string() }, b.clone()];
+    let steps = vec![(0, Act::Open { d: 0, ver: 1001, t: 0 }), (0, Act::Open { d: 1, ver: 2001, t: 1 }), (40, Act::Open { d: 2, ver: 3001, t: 2 }), (40, Act::Change { d: 0, ver: 1002, t: 2 })];
+    out.push(Case { lang, idx: base + 5, steps: steps.clone(), texts: texts.clone(), sched: vec![], answer_initial_cfg: false, poison: false, burst: false, max_latency: None });
+    // (g) ... and with the analyses forced out of launch order (B is analysed first, then A)
+    out.push(Case { lang, idx: base + 6, steps: vec![(0, Act::Open { d: 0, ver: 1001, t: 0 }), (0, Act::Open { d: 1, ver: 2001, t: 2 })], texts,
+        sched: vec![("lock".to_string(), 1001, 300)], answer_initial_cfg: false, poison: false, burst: false, max_latency: None });
     out
 }
 
@@ -482,6 +549,9 @@ struct Obs {
     live_at_end: bool,
     /// per document: (last version sent, text id, diagnostics of a fresh single-document server)
     fresh: BTreeMap<usize, (i64, usize, Option<String>)>,
+    /// fixed schedule (b): per request sent while the first analysis held the mutex,
+    /// (latency ms, answer came only after that analysis' own publication on the wire)
+    blocked: Vec<(u64, bool)>,
 }
 
 /// the hook event lines on the server's standard error
@@ -507,10 +577,10 @@ fn cfg_value(live: bool) -> json::JsonValue {
 fn run_case(bin_dir: &str, case: &Case, tag: &str) -> Obs {
     let _ = tag;
     let mut obs = Obs { started: false, hooks: false, alive_end: false, log: vec![], pubs: vec![], req_sent: vec![], req_answered: vec![],
-        probe_published: false, probe_request_answered: false, stderr: String::new(), live_at_end: true, fresh: BTreeMap::new() };
+        probe_published: false, probe_request_answered: false, stderr: String::new(), live_at_end: true, fresh: BTreeMap::new(), blocked: vec![] };
     let envs = vec![("A2KIT_VERIF_LOG".to_string(), "stderr".to_string()), ("A2KIT_VERIF_SCHED".to_string(), case.sched_string())];
     let mut c = match Client::spawn(&format!("{}/{}", bin_dir, case.lang.exe()), &envs) { Some(c) => c, None => return obs };
-    if !c.initialize() { obs.stderr = c.stderr_text(); c.shutdown(); return obs; }
+    if !c.initialize() { obs.stderr = without_log(&c.stderr_text()); c.shutdown(); return obs; }
     obs.started = true;
     if case.answer_initial_cfg { c.answer_config(0, cfg_value(true)); }
     let mut total_delay: u64 = case.sched.iter().filter(|(t, _, _)| t != "panic").map(|(_, _, ms)| *ms).sum();
@@ -518,27 +588,30 @@ fn run_case(bin_dir: &str, case: &Case, tag: &str) -> Obs {
     let mut last_sent: BTreeMap<usize, i64> = BTreeMap::new();
     let mut last_text: BTreeMap<usize, usize> = BTreeMap::new();
     let mut expect_launch = 0usize;
+    let mut open_docs: HashSet<usize> = HashSet::new();
     for (gap, act) in &case.steps {
         if *gap > 0 { std::thread::sleep(Duration::from_millis(*gap)); }
         match act {
-            Act::Open { d, ver, t } => { did_open(&mut c, &uri_of(case.lang, case.idx, *d), *ver, &case.texts[*t]); last_sent.insert(*d, *ver); last_text.insert(*d, *t); expect_launch += 1; }
+            Act::Open { d, ver, t } => { did_open(&mut c, &uri_of(case.lang, case.idx, *d), *ver, &case.texts[*t]); last_sent.insert(*d, *ver); last_text.insert(*d, *t); expect_launch += 1; open_docs.insert(*d); }
             Act::Change { d, ver, t } => { did_change(&mut c, &uri_of(case.lang, case.idx, *d), *ver, &case.texts[*t]); if live { last_sent.insert(*d, *ver); last_text.insert(*d, *t); expect_launch += 1; } }
-            Act::Close { d } => { did_close(&mut c, &uri_of(case.lang, case.idx, *d)); }
+            Act::Close { d } => { did_close(&mut c, &uri_of(case.lang, case.idx, *d)); open_docs.remove(d); }
             Act::Req { kind, d, line, ch } => {
+                let now = c.now();
                 let id = send_request(&mut c, *kind, &uri_of(case.lang, case.idx, *d), *line, *ch);
-                obs.req_sent.push((id, c.now(), *kind));
+                obs.req_sent.push((id, now, *kind));
             }
             Act::Config { live: l } => {
                 let from = c.msg_count();
                 c.notify("workspace/didChangeConfiguration", json::object! { "settings": json::Null });
-                if c.answer_config(from, cfg_value(*l)) { live = *l; }
+                if c.answer_config(from, cfg_value(*l)) { live = *l; expect_launch += open_docs.len(); }
                 total_delay += 400; // the handler may wait for the mutex
             }
         }
     }
     obs.live_at_end = live;
     // quiescence: all launched jobs harvested (hooks) / last versions published (black box)
-    let budget = 2500 + 160 * (case.launches() as u64 + 4) + total_delay;
+    // generous: the loop leaves as soon as the server is quiescent
+    let budget = 20_000 + 600 * (expect_launch as u64 + 4) + 3 * total_delay;
     let t = Instant::now();
     loop {
         std::thread::sleep(Duration::from_millis(40));
@@ -547,7 +620,9 @@ fn run_case(bin_dir: &str, case: &Case, tag: &str) -> Obs {
             let launched = log.iter().filter(|l| l.tag.starts_with("launch")).count();
             let harvested = log.iter().filter(|l| l.tag == "harvest").count();
             if launched == harvested && launched >= expect_launch && t.elapsed().as_millis() > 150 { break; }
-        } else if !case.poison {
+        } else if case.poison {
+            if t.elapsed().as_millis() as u64 > 3000 + total_delay { break; }   // black box: nothing to wait for
+        } else {
             let pubs = c.publications();
             let done = last_sent.iter().all(|(d, v)| pubs.iter().any(|p| p.1 == uri_of(case.lang, case.idx, *d) && p.2 == Some(*v)));
             if done && t.elapsed().as_millis() > 250 { break; }
@@ -555,11 +630,23 @@ fn run_case(bin_dir: &str, case: &Case, tag: &str) -> Obs {
         if t.elapsed().as_millis() as u64 > budget { break; }
     }
     // outstanding requests
-    for (id, _, _) in obs.req_sent.clone() { let _ = c.has_response(id, 1500); }
+    for (id, _, _) in obs.req_sent.clone() { let _ = c.has_response(id, T_REQ); }
     {
         let g = c.msgs.lock().unwrap();
         for (id, _, _) in &obs.req_sent {
             if let Some((t, _)) = g.iter().find(|(_, m)| m["id"].as_i64() == Some(*id) && m["method"].is_null()) { obs.req_answered.push((*id, *t)); }
+        }
+    }
+    if case.max_latency.is_some() {
+        // position on the wire of the publication of the job that held the mutex (first launch)
+        let g = c.msgs.lock().unwrap();
+        let held_uri = uri_of(case.lang, case.idx, 0);
+        let pub_pos = g.iter().position(|(_, m)| m["method"] == "textDocument/publishDiagnostics" && m["params"]["uri"] == held_uri.as_str());
+        for (id, ts, _) in &obs.req_sent {
+            if let Some(pos) = g.iter().position(|(_, m)| m["id"].as_i64() == Some(*id) && m["method"].is_null()) {
+                let lat = g[pos].0.saturating_sub(*ts);
+                obs.blocked.push((lat, matches!(pub_pos, Some(pp) if pp < pos)));
+            }
         }
     }
     // the `harvest` line precedes the `publish` line, which precedes the bytes on the wire
@@ -568,16 +655,16 @@ fn run_case(bin_dir: &str, case: &Case, tag: &str) -> Obs {
     obs.hooks = !obs.log.is_empty();
     let want = obs.log.iter().filter(|l| l.tag == "publish").count();
     let t1 = Instant::now();
-    while c.publications().len() < want && t1.elapsed() < Duration::from_millis(1500) { std::thread::sleep(Duration::from_millis(10)); }
+    while c.publications().len() < want && t1.elapsed() < Duration::from_millis(10_000) { std::thread::sleep(Duration::from_millis(10)); }
     obs.pubs = c.publications();
     // liveness probe: a request and a fresh edit on a new document (not part of the trace)
     let probe_uri = format!("file:///c18/k{}/probe.{}", case.idx, case.lang.ext());
     let probe_text = match case.lang { Lang::Merlin => " LDA #$01\n JMP NOWHERE\n", _ => "10 GOTO 20\n" };
     let rid = send_request(&mut c, 0, &uri_of(case.lang, case.idx, 0), 0, 3);
-    obs.probe_request_answered = c.has_response(rid, 3000);
+    obs.probe_request_answered = c.has_response(rid, T_REQ);
     did_open(&mut c, &probe_uri, 77, probe_text);
     obs.probe_published = c.wait_for(|ms| ms.iter().any(|(_, m)| m["method"] == "textDocument/publishDiagnostics" && m["params"]["uri"] == probe_uri.as_str()),
-        if case.poison { 1200 } else { 4000 });
+        if case.poison { 1200 } else { T_PUBLISH });
     obs.alive_end = c.alive();
     obs.stderr = without_log(&c.stderr_text());
     if std::env::var("C18_KEEP_LOGS").is_ok() { let _ = std::fs::write(format!("c18-log-{}-{}.txt", case.lang.name(), case.idx), c.stderr_text()); }
@@ -598,7 +685,7 @@ fn fresh_diags(bin_dir: &str, lang: Lang, uri: &str, text: &str) -> Option<Strin
     if !c.initialize() { c.shutdown(); return None; }
     did_open(&mut c, uri, 1, text);
     let u = uri.to_string();
-    let ok = c.wait_for(|ms| ms.iter().any(|(_, m)| m["method"] == "textDocument/publishDiagnostics" && m["params"]["uri"] == u.as_str()), 6000);
+    let ok = c.wait_for(|ms| ms.iter().any(|(_, m)| m["method"] == "textDocument/publishDiagnostics" && m["params"]["uri"] == u.as_str()), T_PUBLISH);
     let ans = if ok { c.publications().into_iter().filter(|p| p.1 == uri).last().map(|p| p.3) } else { None };
     c.shutdown();
     ans
@@ -741,10 +828,41 @@ fn build_trace(case: &Case, obs: &Obs) -> (String, String) {
 // oracles for one history case
 // ------------------------------------------------------------------------------------------------
 
-fn judge_case(ctx: &mut Ctx, case: &Case, obs: &Obs) {
+/// buffered verdicts of one case, so that a case can be re-run before anything is reported
+#[derive(Default)]
+struct Rep {
+    oracles: Vec<(bool, String, String, String, bool)>,   // pass, name, sig, case, timing-dependent
+    qs: Vec<(String, String)>,
+    counts: Vec<(String, u64)>,
+    cases: Vec<(Vec<u8>, bool)>,
+    samples: Vec<String>,
+}
+impl Rep {
+    fn count(&mut self, k: &str) { self.counts.push((k.to_string(), 1)); }
+    fn count_n(&mut self, k: &str, n: u64) { self.counts.push((k.to_string(), n)); }
+    fn oracle(&mut self, pass: bool, name: &str, sig: &str, case: &str) { self.oracles.push((pass, name.to_string(), sig.to_string(), case.to_string(), false)); }
+    /// a verdict that a descheduled server or harness could produce by itself (a wait that ran out)
+    fn oracle_t(&mut self, pass: bool, name: &str, sig: &str, case: &str) { self.oracles.push((pass, name.to_string(), sig.to_string(), case.to_string(), true)); }
+    fn q(&mut self, r: &str, a: &str) { self.qs.push((r.to_string(), a.to_string())); }
+    fn case(&mut self, c: &[u8], nt: bool) { self.cases.push((c.to_vec(), nt)); }
+    fn sample(&mut self, s: &str) { self.samples.push(s.to_string()); }
+    fn failed(&self) -> bool { self.oracles.iter().any(|o| !o.0) }
+    /// re-run only if every failure is of the timing-dependent kind
+    fn wants_rerun(&self) -> bool { self.failed() && self.oracles.iter().filter(|o| !o.0).all(|o| o.4) }
+    fn emit(self, out: &mut Out) {
+        for (k, n) in self.counts { out.count_n(&k, n); }
+        for (p, n, s, c, _) in self.oracles { out.oracle(p, &n, &s, &c); }
+        for (r, a) in self.qs { out.q(&r, &a); }
+        for (c, nt) in self.cases { out.case(&c, nt); }
+        for s in self.samples { out.sample(&s); }
+    }
+}
+
+fn judge_case(case: &Case, obs: &Obs) -> Rep {
     let srv = case.lang.name();
     let desc = case.describe();
-    let out = &mut ctx.out;
+    let mut rep = Rep::default();
+    let out = &mut rep;
     out.count(&format!("srv:{}", srv));
     out.count(if obs.hooks { "mode:hooks" } else { "mode:black-box(no hooks compiled in)" });
     if case.burst { out.count("shape:burst"); }
@@ -752,8 +870,8 @@ fn judge_case(ctx: &mut Ctx, case: &Case, obs: &Obs) {
     out.count_n("launches", case.launches() as u64);
     out.count_n("publications", obs.pubs.len() as u64);
     if !obs.started {
-        out.oracle(false, "server-starts", &format!("c18/{}/server-does-not-start", srv), &format!("{} stderr={}", desc, obs.stderr.chars().take(200).collect::<String>()));
-        return;
+        out.oracle_t(false, "server-starts", &format!("c18/{}/server-does-not-start", srv), &format!("{} stderr={}", desc, obs.stderr.chars().take(200).collect::<String>()));
+        return rep;
     }
     // out-of-order completion really happened?
     if obs.hooks {
@@ -783,13 +901,18 @@ fn judge_case(ctx: &mut Ctx, case: &Case, obs: &Obs) {
     out.oracle(order_ok, "versions-in-order", &format!("c18/{}/version-order", srv), &desc);
     // requests answered
     let all_answered = obs.req_sent.iter().all(|(id, _, _)| obs.req_answered.iter().any(|(i, _)| i == id));
-    out.oracle(all_answered && obs.probe_request_answered, "requests-answered", &format!("c18/{}/request-unanswered", srv), &desc);
+    out.oracle_t(all_answered && obs.probe_request_answered, "requests-answered", &format!("c18/{}/request-unanswered", srv), &desc);
     for (id, ts, _) in &obs.req_sent {
         if let Some((_, ta)) = obs.req_answered.iter().find(|(i, _)| i == id) { if ta.saturating_sub(*ts) < 150 { out.count("request:answered-within-150ms"); } else { out.count("request:answered-later"); } }
     }
-    if let (Some(limit), true) = (case.max_latency, obs.hooks) {
-        let worst = obs.req_sent.iter().filter_map(|(id, ts, _)| obs.req_answered.iter().find(|(i, _)| i == id).map(|(_, ta)| ta.saturating_sub(*ts))).max().unwrap_or(0);
-        out.oracle(worst <= limit, "request-not-blocked-by-analysis", &format!("c18/{}/main-loop-waits-for-analysis", srv), &format!("{} worst-latency-ms={} limit={}", desc, worst, limit));
+    if let (Some(hold), true) = (case.max_latency, obs.hooks) {
+        // the first analysis keeps the mutex for `hold` ms.  A main loop that waits for it answers only
+        // after that analysis' publication and later than the hold; a free main loop answers at once.
+        // Both signs are required, so a slow machine alone cannot produce the verdict.
+        let limit = hold * 8 / 10;
+        let worst = obs.blocked.iter().filter(|(lat, after)| *after && *lat > limit).map(|(lat, _)| *lat).max();
+        out.oracle_t(worst.is_none(), "request-not-blocked-by-analysis", &format!("c18/{}/main-loop-waits-for-analysis", srv),
+            &format!("{} hold-ms={} limit={} (latency,after-held-publication)={:?}", desc, hold, limit, obs.blocked));
     }
     out.oracle(obs.alive_end, "server-alive", &format!("c18/{}/server-died", srv), &format!("{} stderr={}", desc, obs.stderr.chars().take(200).collect::<String>()));
     let dead_analyzer = injected || foreign_panic;
@@ -799,7 +922,7 @@ fn judge_case(ctx: &mut Ctx, case: &Case, obs: &Obs) {
     if live_off { out.count("shape:merlin-live-diagnostics-off"); }
     if !dead_analyzer {
         // still publishes for a new edit
-        out.oracle(obs.probe_published, "publishes-after-history", &format!("c18/{}/no-diagnostics-after-history", srv), &desc);
+        out.oracle_t(obs.probe_published, "publishes-after-history", &format!("c18/{}/no-diagnostics-after-history", srv), &desc);
         // (ii) last publication = last version sent = fresh analysis of the final text
         for (d, (ver, _t, fresh)) in obs.fresh.iter().filter(|_| !live_off) {
             let u = uri_of(case.lang, case.idx, *d);
@@ -814,12 +937,12 @@ fn judge_case(ctx: &mut Ctx, case: &Case, obs: &Obs) {
                             out.oracle(same, "equals-fresh-analysis", &format!("c18/{}/diagnostics-differ-from-fresh-analysis", srv),
                                 &format!("{} doc={} got={} fresh={}", desc, d, p.3.chars().take(300).collect::<String>(), f.chars().take(300).collect::<String>()));
                         }
-                        None => out.oracle(false, "equals-fresh-analysis", &format!("c18/{}/fresh-server-publishes-nothing", srv), &format!("{} doc={}", desc, d)),
+                        None => out.oracle_t(false, "equals-fresh-analysis", &format!("c18/{}/fresh-server-publishes-nothing", srv), &format!("{} doc={}", desc, d)),
                     }
                 }
-                Some(p) => out.oracle(false, "last-is-latest", &format!("c18/{}/stale-diagnostics-after-burst", srv),
+                Some(p) => out.oracle_t(false, "last-is-latest", &format!("c18/{}/stale-diagnostics-after-burst", srv),
                     &format!("{} doc={} last-published-version={:?} last-sent={}", desc, d, p.2, ver)),
-                None => out.oracle(false, "last-is-latest", &format!("c18/{}/no-diagnostics-for-document", srv), &format!("{} doc={} last-sent={}", desc, d, ver)),
+                None => out.oracle_t(false, "last-is-latest", &format!("c18/{}/no-diagnostics-for-document", srv), &format!("{} doc={} last-sent={}", desc, d, ver)),
             }
         }
     } else if injected {
@@ -830,23 +953,36 @@ fn judge_case(ctx: &mut Ctx, case: &Case, obs: &Obs) {
     // model vs implementation
     if obs.hooks {
         let (req, ans) = build_trace(case, obs);
-        out.q(&req, &ans);
+        // a trace cut short by a wait that ran out (job never harvested, launch never seen) is not evidence
+        let incomplete = req.contains(":?") || req.contains("?launch-missing");
+        if incomplete {
+            out.oracle_t(false, "trace-complete", &format!("c18/{}/trace-incomplete", srv), &format!("{} trace={}", desc, req.chars().take(400).collect::<String>()));
+        } else {
+            out.oracle(true, "trace-complete", "-", &format!("idx={}", case.idx));
+            out.q(&req, &ans);
+        }
     }
     let canon = format!("{}|{}", desc, obs.hooks);
     out.case(canon.as_bytes(), case.launches() >= 2);
     out.sample(&desc);
+    rep
 }
 
 // ------------------------------------------------------------------------------------------------
 // robustness stream
 // ------------------------------------------------------------------------------------------------
 
-fn analyze_in_process(lang: Lang, text: &str) -> Result<bool, String> {
+const IGNORE_ALL: &str = r#"{"flag":{"caseSensitive":"ignore","terminalString":"ignore","collisions":"ignore","undeclaredArrays":"ignore","undefinedVariables":"ignore","badReferences":"ignore","extendedCall":"ignore","immediateMode":"ignore","unclosedFolds":"ignore"}}"#;
+const ERROR_ALL: &str = r#"{"flag":{"caseSensitive":"error","terminalString":"error","collisions":"error","undeclaredArrays":"error","undefinedVariables":"error","badReferences":"error","extendedCall":"error","immediateMode":"error","unclosedFolds":"error"}}"#;
+
+/// `cfg`: 0 default settings, 1 every optional diagnostic ignored, 2 every optional diagnostic an error
+fn analyze_in_process(lang: Lang, text: &str, cfg: usize) -> Result<bool, String> {
     let doc = a2kit::lang::Document::from_string(text.to_string(), 1);
+    let json = match cfg % 3 { 1 => Some(IGNORE_ALL), 2 => Some(ERROR_ALL), _ => None };
     let r = guarded(|| match lang {
-        Lang::Applesoft => { let mut a = a2kit::lang::applesoft::diagnostics::Analyzer::new(); let r = a.analyze(&doc).is_ok(); let _ = a.get_diags(&doc); r }
-        Lang::Integer => { let mut a = a2kit::lang::integer::diagnostics::Analyzer::new(); let r = a.analyze(&doc).is_ok(); let _ = a.get_diags(&doc); r }
-        Lang::Merlin => { let mut a = a2kit::lang::merlin::diagnostics::Analyzer::new(); let r = a.analyze(&doc).is_ok(); let _ = a.get_diags(&doc); r }
+        Lang::Applesoft => { let mut a = a2kit::lang::applesoft::diagnostics::Analyzer::new(); if let Some(j) = json { let _ = a.update_config(j); } let r = a.analyze(&doc).is_ok(); let _ = a.get_diags(&doc); r }
+        Lang::Integer => { let mut a = a2kit::lang::integer::diagnostics::Analyzer::new(); if let Some(j) = json { let _ = a.update_config(j); } let r = a.analyze(&doc).is_ok(); let _ = a.get_diags(&doc); r }
+        Lang::Merlin => { let mut a = a2kit::lang::merlin::diagnostics::Analyzer::new(); if let Some(j) = json { let _ = a.update_config(j); } let r = a.analyze(&doc).is_ok(); let _ = a.get_diags(&doc); r }
     });
     r
 }
@@ -871,12 +1007,12 @@ fn run_odd_chunk(bin_dir: &str, lang: Lang, docs: &[(usize, String, &'static str
         let mut ids = Vec::new();
         for k in 0..5 { ids.push(send_request(c, k, &uri, (idx + k) % nlines, (idx * 7 + k) % 20)); }
         let u = uri.clone();
-        let budget = 8000 + text.len() as u64;
+        let budget = T_PUBLISH + 4 * text.len() as u64;
         let published = c.wait_for(|ms| ms.iter().any(|(_, m)| m["method"] == "textDocument/publishDiagnostics" && m["params"]["uri"] == u.as_str()), budget);
         let mut answered = true;
         let t_req = Instant::now();
         for id in ids {
-            let left = 4000u64.saturating_sub(t_req.elapsed().as_millis() as u64).max(50);
+            let left = T_REQ.saturating_sub(t_req.elapsed().as_millis() as u64).max(50);
             if !c.has_response(id, left) { answered = false; }
         }
         let alive = c.alive();
@@ -918,27 +1054,46 @@ pub fn run(ctx: &mut Ctx) {
         cases.extend(fixed_cases(lang, 9000 + lang.idx() * 10, &mut r));
     }
     let cases: Vec<Case> = cases.into_iter().filter(|c| ctx.out.wants(c.idx)).collect();
-    // run them on a small pool (server processes mostly sleep)
+    // run them on a small pool (server processes mostly sleep); a case whose only failures are of the
+    // timing-dependent kind is run again, up to two more times, and reported only if it fails every time
     let width = 10usize;
-    let queue = Arc::new(Mutex::new(cases.clone().into_iter().enumerate().collect::<Vec<_>>()));
-    let results: Arc<Mutex<Vec<(usize, Obs)>>> = Arc::new(Mutex::new(Vec::new()));
-    let mut hs = Vec::new();
-    for _ in 0..width {
-        let queue = Arc::clone(&queue);
-        let results = Arc::clone(&results);
-        let bin_dir = bin_dir.clone();
-        hs.push(std::thread::spawn(move || loop {
-            let item = queue.lock().unwrap().pop();
-            match item {
-                Some((i, case)) => { let o = run_case(&bin_dir, &case, "h"); results.lock().unwrap().push((i, o)); }
-                None => break,
+    let mut final_reps: BTreeMap<usize, Rep> = BTreeMap::new();
+    let mut todo: Vec<usize> = (0..cases.len()).collect();
+    for round in 0..3 {
+        if todo.is_empty() { break; }
+        let queue = Arc::new(Mutex::new(todo.iter().map(|i| (*i, cases[*i].clone())).collect::<Vec<_>>()));
+        let results: Arc<Mutex<Vec<(usize, Obs)>>> = Arc::new(Mutex::new(Vec::new()));
+        let mut hs = Vec::new();
+        for _ in 0..width.min(todo.len()) {
+            let queue = Arc::clone(&queue);
+            let results = Arc::clone(&results);
+            let bin_dir = bin_dir.clone();
+            hs.push(std::thread::spawn(move || loop {
+                let item = queue.lock().unwrap().pop();
+                match item {
+                    Some((i, case)) => { let o = run_case(&bin_dir, &case, "h"); results.lock().unwrap().push((i, o)); }
+                    None => break,
+                }
+            }));
+        }
+        for h in hs { let _ = h.join(); }
+        let results = std::mem::take(&mut *results.lock().unwrap());
+        let mut again = Vec::new();
+        for (i, obs) in &results {
+            let rep = judge_case(&cases[*i], obs);
+            if round > 0 { ctx.out.count(if rep.failed() { "retry:failed-again" } else { "retry:passed-on-rerun" }); }
+            if rep.wants_rerun() && round < 2 {
+                ctx.out.count("retry:history-rerun");
+                eprintln!("c18: re-running idx={} ({})", cases[*i].idx, rep.oracles.iter().filter(|o| !o.0).map(|o| o.2.clone()).collect::<Vec<_>>().join(","));
+                again.push(*i);
+            } else {
+                final_reps.insert(*i, rep);
             }
-        }));
+        }
+        again.sort();
+        todo = again;
     }
-    for h in hs { let _ = h.join(); }
-    let mut results = std::mem::take(&mut *results.lock().unwrap());
-    results.sort_by_key(|(i, _)| *i);
-    for (i, obs) in &results { judge_case(ctx, &cases[*i], obs); }
+    for (_, rep) in final_reps { rep.emit(&mut ctx.out); }
 
     eprintln!("c18: histories done at {:?}", t_start.elapsed());
     // ---- robustness stream ----
@@ -953,7 +1108,15 @@ pub fn run(ctx: &mut Ctx) {
             let (text, kind) = odd_text(lang, k, &mut r);
             if !ctx.out.wants(idx) { continue; }
             let t_in = Instant::now();
-            let inproc = analyze_in_process(lang, &text);
+            let inproc = analyze_in_process(lang, &text, 0);
+            // the same text under the two extreme settings (severity `None` / everything an error)
+            for cfg in 1..3 {
+                if (k + cfg) % 4 != 0 && !ctx.tier_thorough { continue; }
+                if let Err(p) = analyze_in_process(lang, &text, cfg) {
+                    ctx.out.oracle(false, "odd-document-analysed-under-settings", &format!("panic:{}", panic_site(&p).split(':').next().unwrap_or("?")),
+                        &format!("idx={} srv={} kind={} settings={} panic={}", idx, lang.name(), kind, if cfg == 1 { "ignore-all" } else { "error-all" }, p.chars().take(200).collect::<String>()));
+                } else { ctx.out.count("odd-inproc:settings-variant-ok"); }
+            }
             if std::env::var("C18_TIMING").is_ok() && t_in.elapsed() > Duration::from_millis(300) { eprintln!("c18: inproc {} {} {} len={} took {:?}", lang.name(), idx, kind, text.len(), t_in.elapsed()); }
             ctx.out.count(&format!("odd:{}", kind));
             match &inproc {
@@ -977,6 +1140,19 @@ pub fn run(ctx: &mut Ctx) {
         }
         let mut all: Vec<OddResult> = Vec::new();
         for h in hs { if let Ok(v) = h.join() { all.extend(v); } }
+        // a document whose only symptom is a wait that ran out (no panic, server alive) is tried again,
+        // alone on a fresh server, up to two more times
+        for r in all.iter_mut() {
+            let mut tries = 0;
+            while !(r.published && r.answered) && r.alive && panic_sig(&r.stderr).is_none() && tries < 2 {
+                tries += 1;
+                ctx.out.count("retry:odd-document-rerun");
+                if let Some(d) = suspicious.iter().find(|d| d.0 == r.idx) {
+                    if let Some(n) = run_odd_chunk(&bin_dir, lang, std::slice::from_ref(d)).pop() { *r = n; }
+                }
+                ctx.out.count(if r.published && r.answered && r.alive { "retry:passed-on-rerun" } else { "retry:failed-again" });
+            }
+        }
         all.sort_by_key(|r| r.idx);
         for r in all {
             let srv = lang.name();
